@@ -50,7 +50,13 @@ func (w *world) outboundClusters(p *model.Proxy) []string {
 			panic(err)
 		}
 		if strings.HasPrefix(c.Name, "outbound|") {
-			names = append(names, c.Name)
+			// the connection limit the cluster got (from the DestinationRule picked for it), "-" = default
+			mc := "-"
+			if th := c.GetCircuitBreakers().GetThresholds(); len(th) > 0 && th[0].GetMaxConnections() != nil &&
+				th[0].GetMaxConnections().GetValue() < 1000000 {
+				mc = strconv.Itoa(int(th[0].GetMaxConnections().GetValue()))
+			}
+			names = append(names, c.Name+"@"+mc)
 		}
 	}
 	sort.Strings(names)
@@ -181,6 +187,7 @@ func (w *world) oracleEDS(p *model.Proxy, ns string) string {
 func (w *world) oracleRouter(ns string) string {
 	p := w.routerFor(ns)
 	for _, c := range w.outboundClusters(p) {
+		c, _, _ = strings.Cut(c, "@")
 		f := strings.Split(c, "|")
 		if len(f) != 4 {
 			return "cluster-name-shape " + c
@@ -318,22 +325,63 @@ func (w *world) oracleXDS(ns string, lbl map[string]string) string {
 	}
 	got := map[hp]bool{}
 	for _, c := range w.outboundClusters(p) {
+		c, mc, _ := strings.Cut(c, "@")
 		f := strings.Split(c, "|")
 		if len(f) != 4 {
 			return "cluster-name-shape " + c
+		}
+		// the connection limit of the cluster identifies the rule (and the place in it) it was written in:
+		// that rule must be exported to ns - a rule that is not exported must not shape the cluster
+		if v, err := strconv.Atoi(mc); err == nil {
+			var owner *drSpec
+			for i := range w.drs {
+				d := &w.drs[i]
+				if d.tp != nil && (d.tp.pool == v || d.tp.plPool == v) {
+					owner = d
+				}
+				for _, sn := range d.subsets {
+					if sn.pool == v {
+						owner = d
+					}
+				}
+			}
+			if owner == nil {
+				return "cluster-policy-of-unknown-rule " + wire.Enc(c) + "@" + mc
+			}
+			if owner.host != f[3] && !covers(owner.host, f[3]) {
+				return "cluster-policy-of-rule-for-another-host " + wire.Enc(c) + "@" + mc
+			}
+			if !w.drVisibleDoc(owner, ns) {
+				v := w.drNotExportedKind(owner, ns, fromKeys(sc, f[3])) + " policy " + wire.Enc(c) + "@" + mc + " " + owner.ns + "/" + owner.name + " " + ns
+				if strings.HasPrefix(v, "dr-not-exported:legacy-merge-flag-off") {
+					if w.deferred == "" {
+						w.deferred = v
+					}
+				} else {
+					return v
+				}
+			}
 		}
 		if f[2] != "" {
 			// a subset cluster comes from a DestinationRule subset: some rule declaring it is exported to ns
 			ok := false
 			for i := range w.drs {
 				for _, sn := range w.drs[i].subsets {
-					if sn == f[2] && w.drVisibleDoc(&w.drs[i], ns) {
+					if sn.name == f[2] && w.drVisibleDoc(&w.drs[i], ns) {
 						ok = true
 					}
 				}
 			}
 			if !ok {
-				if !w.enhanced {
+				legacy := false
+				if from := fromKeys(sc, f[3]); !w.enhanced && len(from) > 1 {
+					for _, k := range from {
+						if o := w.drByKey(k); o != nil && w.drVisibleDoc(o, ns) {
+							legacy = true
+						}
+					}
+				}
+				if legacy {
 					if w.deferred == "" {
 						w.deferred = "dr-not-exported:legacy-merge-flag-off subset-cluster " + wire.Enc(c) + " " + ns
 					}
